@@ -14,6 +14,8 @@
 (*                calls[g][j] (set_power calls), succ, exc (succeeded_power,   *)
 (*                excess_power of the Result), md/mrem (distribute_power on    *)
 (*                the manager's own pairs)                                     *)
+(*  kind "reject": g, p, e  a request the advertised bounds do NOT admit; r =    *)
+(*     for adjust_power TRUE and FALSE: [adj, kind, calls] of the manager run    *)
 (*  kind "bounds": g, hp (probe powers in half units, from TLC), adv / enf     *)
 (*     (<<il, el, eu, iu>> of PowerBoundsCalculator.calculate / BatteryManager *)
 (*     ._get_bounds), accA / accN (per probe: _check_request with / without    *)
@@ -23,8 +25,10 @@
 (*                                                                            *)
 (* A false clause is written to IOEnv.VERDICT_FILE with the names of the       *)
 (* deviations of the transcription that fired on that very input and can       *)
-(* explain that clause; lines whose clause starts with DRIFT report that code   *)
-(* and transcription differ (not a violation).                                 *)
+(* explain that clause (detail.causes lists every named cause that fired, also *)
+(* the legacy ones of repaired defects); lines whose clause starts with DRIFT   *)
+(* report that code and transcription differ, OBS lines report behaviour        *)
+(* outside the domain of the properties (neither is a violation).               *)
 EXTENDS BatteryPower
 
 VARIABLES tid, l
@@ -60,7 +64,7 @@ ClauseChecks(i, o, mo, devs, path) ==
         LET name == DistClauses[c] IN
         Check(ClauseHolds(name, i, o), PropOf(name) \o name,
               [path |-> path, p |-> i.power, e |-> i.exp, d |-> o.d, rem |-> o.rem,
-               model |-> mo, agree |-> SameOut(mo, o)],
+               model |-> mo, agree |-> SameOut(mo, o), causes |-> SetToSeq(devs)],
               devs \cap Excuses(name))
 
 DistChecks(r) ==
@@ -90,6 +94,28 @@ DistChecks(r) ==
                              [p |-> i.power, succ |-> m.succ, exc |-> m.exc, calls |-> m.calls, md |-> m.md], {})
                /\ Check(m.kind \in {"Success", "OutOfBounds"}, "C01.ResultAccountsRequest",
                         [path |-> "manager", p |-> i.power, kind |-> m.kind], {})
+
+\* ---- requests that are not advertised, through the manager (C02: the admission check is what keeps
+\* set-points out of the exclusion zones; a rejection makes no set_power call and satisfies the clauses).
+\* Beyond the inclusion bounds with adjust_power the request is an admitted one (covered by the
+\* "dist" records); requests in the gap between the enforced and the advertised exclusion bound are
+\* outside the domain of C02 and only reported (OBS line).
+RejectChecks(r) ==
+    LET i == InputOf(r)
+        a == Advertised(i.groups)
+        E == Enforced(i.groups)
+    IN \A k \in 1..Len(r.r) :
+        LET m == r.r[k]
+            o == [d |-> m.calls, rem |-> 0]
+            ok == PerInverterInBounds(i, o) /\ GroupInBounds(i, o)
+            det == [path |-> "manager.not_advertised", p |-> i.power, adj |-> m.adj, kind |-> m.kind, calls |-> m.calls]
+        IN /\ Check((m.kind = "OutOfBounds") = ~Accepts(2 * i.power, E, m.adj), "DRIFT.CheckRequest", det, {})
+           /\ Check(m.kind \in {"Success", "OutOfBounds"}, "DRIFT.ResultKind", det, {})
+           /\ IF InGap(i.power, i.groups)
+              THEN Check(ok, "OBS.GapRequestCommandedInsideExclusion", det, {})
+              ELSE (InsideAdvZone(i.power, a) \/ ~m.adj) =>
+                     /\ Check(PerInverterInBounds(i, o), "C02.PerInverterInBounds", det, {})
+                     /\ Check(GroupInBounds(i, o), "C02.GroupInBounds", det, {})
 
 \* ---- C17 on recorded bounds
 HalfSC == SC \div 2
@@ -136,6 +162,17 @@ ExercisedDist(r) ==
         supply |-> B2N(i.power < 0),
         manager |-> B2N(r.m.has),
         manager_reordered |-> B2N(r.m.has /\ r.m.ord # [k \in 1..Len(r.m.ord) |-> k])]
+ExercisedReject(r) ==
+    LET i == InputOf(r)
+        a == Advertised(i.groups)
+        E == Enforced(i.groups)
+        cmd(m) == \E g \in 1..Len(m.calls) : \E j \in 1..Len(m.calls[g]) : Abs(m.calls[g][j]) > Tol
+    IN [not_advertised |-> 1,
+        inside_enforced_zone |-> B2N(E.el < i.power /\ i.power < E.eu),
+        in_gap |-> B2N(InGap(i.power, i.groups)),
+        beyond_incl_noadjust |-> B2N(i.power < a.il \/ i.power > a.iu),
+        rejected_runs |-> Cardinality({k \in 1..Len(r.r) : r.r[k].kind = "OutOfBounds"}),
+        commanded_runs |-> Cardinality({k \in 1..Len(r.r) : cmd(r.r[k])})]
 ExercisedBounds(r) ==
     [probes |-> Len(r.hp),
      in_advertised |-> Cardinality({k \in 1..Len(r.hp) : InAdvFP(r.hp[k], r.adv)}),
@@ -152,6 +189,8 @@ Judge ==
     /\ l = 1
     /\ IF Tr.kind = "dist"
        THEN DistChecks(Tr) /\ Say([tid |-> Tr.id, done |-> TRUE, ex |-> ExercisedDist(Tr)])
+       ELSE IF Tr.kind = "reject"
+       THEN RejectChecks(Tr) /\ Say([tid |-> Tr.id, done |-> TRUE, ex |-> ExercisedReject(Tr)])
        ELSE BoundsChecks(Tr) /\ Say([tid |-> Tr.id, done |-> TRUE, ex |-> ExercisedBounds(Tr)])
     /\ l' = 2 /\ UNCHANGED <<vars, tid>>
 
